@@ -8,7 +8,7 @@ From GA.Gen Require Import Subst.
 From GA.Spec Require Import Local EDNAFULL.
 From GA.Spec Require LocalEnum.
 From GA.Model Require Import SW.
-From GA.Proofs Require Import SWProofs SubstProofs.
+From GA.Proofs Require Import SWProofs SubstProofs EnumProofs.
 Local Open Scope Z_scope.
 
 (* The validity checker evaluated (in the kernel) on every alignment returned by
@@ -106,6 +106,17 @@ Theorem C09_matrices_symmetric_diagonal_dominant :
   diagonal_dominates dna_score bases = true /\ diagonal_dominates prot_score std_aa = true.
 Proof. exact (conj dna_symmetric (conj prot_symmetric (conj dna_diagonal prot_diagonal))). Qed.
 Print Assumptions C09_matrices_symmetric_diagonal_dominant.
+
+(* the exhaustive enumeration used to validate the oracle is complete: EVERY valid local alignment of any two
+   sequences is enumerated, so none scores above best_enum (unbounded; gap costs not positive).  Together
+   with the finite theorems above (oracle = enumeration = code model on the small domains) this makes the
+   oracle's optimum the true optimum there. *)
+Theorem C09_enumeration_dominates_every_valid_alignment :
+  forall (sub : byte -> byte -> Z) opn ext s1 s2 r1 r2 st1 st2 en1 en2,
+  opn <= 0 -> ext <= 0 -> valid_alignment s1 s2 r1 r2 st1 st2 en1 en2 ->
+  score_cols sub opn ext r1 r2 0 <= LocalEnum.best_enum sub opn ext s1 s2.
+Proof. exact best_enum_dominates. Qed.
+Print Assumptions C09_enumeration_dominates_every_valid_alignment.
 
 Definition C09_gotoh_is_optimal_statement : Prop :=
   forall (sub : byte -> byte -> Z) opn ext s1 s2 r1 r2 st1 st2 en1 en2,
